@@ -293,6 +293,9 @@ class Monitor:
         # the conforming run: the payload is laid out according to the definition (C02's premise)
         for c in self.exp.conf:
             ex.st.assume(c)
+        # a payload that conforms to a UBX definition fits the frame's 16-bit length field (the arbitrary-length
+        # variants, not this one, cover what happens beyond it)
+        ex.st.assume(mk_bool(zint(payload.length()) <= 65535))
         ex.st.ghost["conf_assumed"] = True
 
     def conf(self):
@@ -420,6 +423,8 @@ def instance_label(mode, key):
     ids, classes, _ = tables()
     if key is None:
         return f"init[{MODES[mode]} unknown-id]"
+    if key == "odd":
+        return f"init[{MODES[mode]} odd-id]"
     names = sorted({v for k, v in ids.items() if k[0:2] == key})
     nm = names[0] if len(names) == 1 else names[0].rsplit("-", 1)[0] + "*"
     return f"init[{MODES[mode]} {key.hex()} {nm}]"
@@ -535,6 +540,19 @@ def init_unit(ctx, res, col, reg, mode, key):
             st.inputs["ubxID"] = ("bytes", ib, z3.IntVal(1))
             known = sorted({k[0:2] for k in ids})
             st.assume(mk_bool(z3.And(*[z3.Not(z3.And(cb(0) == k[0], ib(0) == k[1])) for k in known])))
+        elif key == "odd":
+            # class / ID byte strings that are not one byte each (UBXReader.parse passes message[2:3], message[3:4],
+            # which are empty for inputs shorter than 4 bytes; callers may pass anything)
+            cb, ib = Base("ubxClass"), Base("ubxID")
+            # the shapes UBXReader.parse can pass besides one byte each: message[2:3], message[3:4] of an input shorter
+            # than four bytes.  (Other splits - which only direct callers of the constructor can produce - are not
+            # covered: A-ODDID in the evidence.)
+            shapes = [(0, 0), (1, 0)]
+            shape = shapes[st.choice(len(shapes), "class-id-lengths")]
+            lc, li = z3.IntVal(shape[0]), z3.IntVal(shape[1])
+            c_rope, i_rope = SBytes.view(cb, 0, lc), SBytes.view(ib, 0, li)
+            st.inputs["ubxClass"] = ("bytes", cb, lc)
+            st.inputs["ubxID"] = ("bytes", ib, li)
         else:
             c_rope, i_rope = key[0:1], key[1:2]
         obj = ex.bm.new_object(cls)
@@ -625,7 +643,7 @@ def inspect_message(ex, reg, obj, lab, c_rope, i_rope, P):
 # ---------------------------------------------------------------------------------------------------------
 # native replay of instance obligations
 # ---------------------------------------------------------------------------------------------------------
-_NAME_RE = re.compile(r"init\[(GET|SET|POLL) (unknown-id|[0-9a-f]{4})(?: [^\]]*?)?(?: (pbf=[01]|nopayload))?( conforming)?\]/(.*)")
+_NAME_RE = re.compile(r"init\[(GET|SET|POLL) (unknown-id|odd-id|[0-9a-f]{4})(?: (?!pbf=|nopayload)[^\]]*?)?(?: (pbf=[01]|nopayload))?( conforming)?\]/(.*)")
 
 
 def replay_instance(o):
@@ -642,7 +660,7 @@ def replay_instance(o):
         return info
     mode = MODES.index(m.group(1))
     inp = o.inputs or {}
-    if m.group(2) == "unknown-id":
+    if m.group(2) in ("unknown-id", "odd-id"):
         cls, mid = inp.get("ubxClass", b"\x00"), inp.get("ubxID", b"\x00")
     else:
         k = bytes.fromhex(m.group(2))
@@ -1142,10 +1160,21 @@ def replay_kwinit(o):
                 continue
             ents = parse_def(defn)
             kw = {}
+            scaled = {}
 
             def gen(entries, suffix, counts):
                 for e in entries:
-                    if isinstance(e, Leaf) and e.typ != "CH" and e.scale is None and e.typ[0] in "EILUXC":
+                    if isinstance(e, Leaf) and e.name.startswith("_HP"):
+                        continue
+                    if isinstance(e, Leaf) and e.typ != "CH" and e.scale is not None and e.typ[0] in "EILU":
+                        # scaled field: a value that is an exact multiple of the resolution
+                        n = e.size
+                        lo, hi = (-(1 << (8 * n - 1)), 1 << (8 * n - 1)) if e.typ[0] == "I" else (0, 1 << (8 * n))
+                        r = rnd.choice([1, 2, 3, 10, 100, 450, rnd.randrange(lo, hi)])
+                        r = max(lo, min(hi - 1, r))
+                        kw[e.name + suffix] = r * e.scale
+                        scaled[e.name + suffix] = (r, e.scale)
+                    elif isinstance(e, Leaf) and e.typ != "CH" and e.scale is None and e.typ[0] in "EILUXC":
                         n = e.size
                         if e.typ[0] in "XC":
                             kw[e.name + suffix] = bytes(rnd.randrange(256) for _ in range(n))
@@ -1174,6 +1203,12 @@ def replay_kwinit(o):
                     kw["type"] = k3[0][2]
             if not kw:
                 continue
+            try:
+                from contracts.oracle import native_expected_definition as _ned
+                if _ned(MODES[mode], key, ids, paytabs, kwargs=kw) not in (None, nm):
+                    continue  # these keywords select another variant of the message than the one they were drawn from
+            except Exception:  # noqa
+                pass
             tries += 1
             try:
                 msg = UBXMessage(key[0:1], key[1:2], mode, **kw)
@@ -1188,7 +1223,19 @@ def replay_kwinit(o):
                 return info
             if back.identity != msg.identity:
                 continue
-            bad = [k for k, v in kw.items() if getattr(back, k, v) != v]
+            bad = [k for k, v in kw.items() if k not in scaled and getattr(back, k, v) != v]
+            rawvals = None
+            if scaled:
+                try:
+                    rawvals = native_expected(msg._get_dict(**kw), msg.payload, True, (MODES[mode], key), raw=True)
+                except Exception:  # noqa
+                    rawvals = None
+            for k, (r, sc) in scaled.items():
+                if rawvals is None or k not in rawvals:
+                    continue
+                if abs(rawvals[k] - r) > 1:  # "to within one unit of resolution"
+                    bad.append(k)
+                    kw[k] = f"{kw[k]!r} (= {r} x {sc}); stored raw value {rawvals[k]}"
             if bad:
                 info.update(reproduced=True, kwargs=repr(kw)[:600],
                             observed=f"{bad[0]}: supplied {kw[bad[0]]!r}, payload {msg.payload.hex()[:80]} parses to {getattr(back, bad[0], None)!r}")
